@@ -706,9 +706,32 @@ func run(r *ev.Run, id string) {
 		})
 		r.Sample("graph", map[string]interface{}{"pool": p, "clients": nc, "states": res.States, "transitions": res.Transitions, "depth": res.Depth, "fixpoint": res.Fixpoint, "merge_checks": res.MergeChecks})
 	}
+	manyLeases(r, id)
 	if id == "C08" {
 		runSched(r)
 	}
+}
+
+// manyLeases: one client collects 1..12 prefixes (beyond what the graphs can hold) on a
+// 32-block pool; after each acquisition a hint-less IA_PD and an exact renewal of the first
+// and of the newest prefix run through all C08/C09 oracles.
+func manyLeases(r *ev.Run, id string) {
+	s := NewSys(r, id, Pool{"2001:db8:0:20::/59", 64}, 1, false)
+	first := ""
+	for k := 0; k < 12; k++ {
+		p := s.blockPrefix(int64(31 - 2*k))
+		if k == 0 {
+			first = p
+		}
+		s.Apply(Op{Client: "A", Msg: 1, IAPDs: [][]string{{p}}}, true)
+		s.Apply(Op{Client: "A", Msg: 5, IAPDs: [][]string{{}}}, true)
+		s.Apply(Op{Client: "A", Msg: 5, IAPDs: [][]string{{first}}}, true)
+		s.Apply(Op{Client: "A", Msg: 5, IAPDs: [][]string{{p}, {"::/0"}}}, true)
+		if s.dead || s.broken {
+			break
+		}
+	}
+	r.Add("many_leases_sweeps", 1)
 }
 
 var runSched = c16.SchedPart("C08", 6)
